@@ -52,6 +52,8 @@ HOSTILE_TAGS = ["os.system", "os.popen", "subprocess.Popen", "subprocess.call", 
                 "checks.c04_subs.AuditedProxy", "checks.c04_subs.TaggedURI", "checks.c04_subs.LocalDaemon", "checks.c04_subs.AuditedProxy",
                 "Pyro5.compatibility.Pyro4.Proxy", "Pyro5.compatibility.Pyro4.URI", "Pyro5.compatibility.Pyro4.Daemon", "Pyro4.core.Proxy", "Pyro4.Proxy",
                 "Pyro4.core.URI", "Pyro5.nameserver.NameServerDaemon", "Pyro5.client.Proxy2", "c04_subs.AuditedProxy",
+                # deeper dotted paths below the bait module (looking for 'checks.c04_bait.inner' as a module would import checks.c04_bait)
+                "checks.c04_bait.inner.Bait", "checks.c04_bait.Bait.attr", "checks.c04_bait.a.b.C",
                 # the tags the serpent library itself writes for values it has no literal for (Pyro accepts only serpent's float dict)
                 "complex", "collections.OrderedDict", "collections.OrderedDict", "collections.deque", "collections.defaultdict", "array.array", "bytes", "bytearray", "set", "frozenset", "tuple"]
 NONSTR_TAGS = [123, None, True, 1.5, ["list"], {"d": 1}]
